@@ -157,12 +157,23 @@ impl Subscription {
     ) -> Result<(), PostMessagesError> {
         #[cfg(deltio_verif)]
         crate::verif::point().await;
-        self.sender
+        #[cfg(deltio_verif)]
+        let verif_ids = crate::verif::ids_of(&new_messages);
+        let result = self
+            .sender
             .send(SubscriptionRequest::PostMessages {
                 messages: new_messages,
             })
             .await
-            .map_err(|_| PostMessagesError::Closed)
+            .map_err(|_| PostMessagesError::Closed);
+        #[cfg(deltio_verif)]
+        crate::verif_ev!(
+            "sub {} post.enq {} {}",
+            self.internal_id,
+            verif_ids,
+            if result.is_ok() { "ok" } else { "closed" }
+        );
+        result
     }
 
     /// Acknowledges messages.
